@@ -162,7 +162,10 @@ theorem witness_duplicate_ids :
       getPeer s 2 = some (.requestFirstLastStateProof ⟨hA, 0⟩ req 0) ∧ req.last.vid ≠ m.last.vid ∧
       ∀ q, trustedOf s q ≠ trustedOf out.st 2 := by
   intro hA hB psB req s m
-  refine ⟨_, rfl, rfl, rfl, rfl, by decide, ?_⟩
+  have hev : onProof s 2 m 5 0 [] 0 [] = .ok ⟨setPeer s 2 (.ready ⟨hB, 5⟩ psB), .ok, []⟩ := by
+    simp only [hA, hB, psB, req, s, m]
+    rfl
+  refine ⟨_, hev, rfl, rfl, rfl, by decide, ?_⟩
   intro q
   have hq : trustedOf s q = none := by
     by_cases h1 : q = 1
